@@ -1,3 +1,5 @@
+//go:build !verifsched
+
 package props
 
 import (
@@ -37,8 +39,10 @@ func init() {
 			}
 			return u
 		},
-		Run:    c03Run,
-		Bound:  func(tier string) map[string]any { return map[string]any{"depth": c03Depth(tier), "keys": []int{2048, 3072, 4096}, "initial_states": len(c03Inits())} },
+		Run: c03Run,
+		Bound: func(tier string) map[string]any {
+			return map[string]any{"depth": c03Depth(tier), "keys": []int{2048, 3072, 4096}, "initial_states": len(c03Inits())}
+		},
 		Budget: dur(5*time.Minute, 40*time.Minute),
 	})
 }
